@@ -8,7 +8,8 @@ from ..core import CheckSpec, Outcome, Lean, rat
 TOL = 2.0 ** -20
 NORMALISED = {"hit", "precision", "recall", "recip", "rbp", "rbpn", "ndcg", "ndcg_gain"}
 RANK_SENSITIVE = {"recip", "rbp", "rbpn", "dcg", "ndcg", "dcg_gain", "ndcg_gain"}
-DISCOUNTS = {"log2": lambda r: np.log2(r), "log2p1": lambda r: np.log2(r + 1), "rank-int": lambda r: r}
+DISCOUNTS = {"log2": lambda r: np.log2(r), "log2p1": lambda r: np.log2(r + 1), "rank-int": lambda r: r,
+             "ln": lambda r: np.log(r), "sqrt-half": lambda r: np.sqrt(r) / 2}          # the last two take values in (0, 1) at small ranks: clamped to 1
 
 def gen(rng: random.Random, tier: str):
     n = {"quick": 600, "thorough": 20000}[tier]
@@ -17,7 +18,7 @@ def gen(rng: random.Random, tier: str):
         L = rng.sample(universe, rng.randint(0, 10))
         T = rng.sample(universe, rng.randint(0, 8))
         yield {"recs": L, "test": T, "gains": [rng.randint(0, 10) / 2 for _ in T], "k": rng.choice([None, None] + list(range(1, 13))),
-               "pat": rng.choice(["1/8", "1/2", "7/8", "17/20"]), "disc": rng.choice(["log2", "log2", "log2p1", "rank-int"]),
+               "pat": rng.choice(["1/8", "1/2", "7/8", "17/20"]), "disc": rng.choice(["log2", "log2", "log2p1", "rank-int", "ln", "sqrt-half"]),
                # popularity of the 12 universe items in a training dataset (0 = known but never interacted with); the list may also recommend items unknown to it
                "pop_counts": [rng.choice([0, 1, 1, 2, 3, 4]) for _ in universe], "pop_unknown": rng.sample([50, 51, 52], rng.choice([0, 0, 1, 2]))}
 
